@@ -6,6 +6,11 @@ VERIF = os.path.dirname(os.path.abspath(__file__))
 
 # id -> (level, technique, text, note, design section)
 CHECKS = {
+    "C04": ("exploration",
+            "runtime monitoring: reference rewriter model compared at four consumers (capture routes, real destination endpoint, mocked aggregations) + input-buffer poisoning + retained-slice re-comparison, under -race (scoped reports)",
+            "For generated tables (validation levels x 0-4 rewriters: literal / regex / not-clause / max, added by TOML or init command) and valid lines in every whitespace layout and numeric spelling, the bytes held by two capture routes, a real destination's endpoint and two mocked aggregations must equal oracleRewrite(name)+' '+value+' '+ts with the tokens byte-for-byte as received; Table.Dispatch must leave the caller's buffer untouched; every retained slice must be unchanged at the end; overwriting the input buffer with 0xAA right after Dispatch, or letting the real Plain scanner recycle it over TCP while consumers still hold the line, must change nothing; race reports touching the dispatch/rewrite/input path count.",
+            "Tokens split on ASCII whitespace only; aggregators observed through output key/ts/value; regex rules share the stdlib engine with the code, so the oracle is independent for literal, max, not-clause and order semantics, not for regexp itself; completeness at destinations is C05/C06.",
+            "DESIGN.md §4 C04"),
     "C05": ("exploration",
             "runtime monitoring: offline stream oracle (subsequence of unique hand-offs, order, framing) + conservation identity over counters, real destination to loopback endpoint, under -race",
             "A real carbon route built from a command string (iobuf 1B..2MB, connbuf 1..30000, flush 1..100ms, plain and pickle) sends unique lines of generated lengths (5B..4x iobuf) in bursts and trickles to a loopback endpoint that records the byte stream; offline the stream must be exactly the handed lines (or one >I-prefixed pickle per line), each once, in hand-off order, newline-terminated, no tearing/merging; absent lines == slow_conn counter delta; direction=out == lines received. Held on the configurations and schedules produced.",
@@ -41,6 +46,11 @@ CHECKS = {
             "Per generated table: after each raw round every rule's direction=in counter must equal the model's complete-filter matches not withheld by an earlier drop-raw rule and every capture route must hold exactly the raw lines the model sends there; after each tick round every aggregate must arrive at exactly the routes whose filter accepts its name, un-rewritten, with the model value; invalid / out_of_order / blacklist counters must not move, no rule's in-counter may move (no feedback), direction=out must equal the model (no amplification); a final tick-only round must add nothing. Tables are regenerated until they offer self-matching or chained outputs, blacklist/rewriter hits on aggregate names, drop-raw hits and near-misses.",
             "Filter semantics evaluated with stdlib regexp/strings on the name (the relay's matcher is C03); 'cannot loop' is shown as no feedback and no amplification over the tick rounds run, not as an unbounded claim; a real feedback deadlock surfaces as inconclusive (barrier watchdog).",
             "DESIGN.md §4 C11"),
+    "C12": ("exploration",
+            "runtime monitoring: differential framing oracle (split model) over exhaustive and random segmentations of the real Plain handler, the real Listener over loopback TCP/UDP and the real AMQP consume loop",
+            "The sequence of Dispatch arguments (copied at call time) of input.Plain must equal split(stream) for every single cut, every pair of cuts, 1-byte reads, (n>0, EOF), (n>0, timeout) on streams <= 48 B, for random segmentations of streams up to 300 KB with lines at the 65536-byte limit, over the real Listener with NODELAY paced writes and stalled writers, for UDP datagrams of 0-200 lines and for AMQP bodies through the real consumeAMQP loop (mock connector).",
+            "Limit read as line length including its terminator <= 65536 (AMQP 4096); longer lines are measured, not judged; loopback only; a dropped UDP datagram is inconclusive.",
+            "DESIGN.md §4 C12"),
     "C14": ("exploration",
             "runtime monitoring of the real relay binary (-race) as a child process: exit status + output scan + liveness probe after every hostile batch; every batch logged before it is sent",
             "The real binary is started on generated TOML configurations (documented options with boundary values); once listening it receives batches of hostile bytes on the plain TCP, UDP and pickle ports, boundary / mutated / random admin commands on the TCP admin port and HTTP admin DELETEs, each followed by valid traffic exercising what was built and a `view` probe; any exit, Go panic or fatal error after the listeners are up (or a Go panic at start-up) is a violation whose witness is the configuration and the last batches. AMQP bodies go through the real consume loop in an in-process child. A universal negative: the evidence lists what was tried.",
